@@ -40,7 +40,7 @@ enum Op {
 
 /// A `Pending` batch is detached from the instance and `Send`: it may be scanned on another thread
 /// while the instance already hands out the next one.
-static SHARED_BATCH: Mutex<Option<Box<dyn Iterator<Item = c_int> + Send>>> = Mutex::new(None);
+static SHARED_BATCH: Mutex<Option<Box<dyn Iterator<Item = (i64, i64)> + Send>>> = Mutex::new(None);
 
 fn parse(s: &str) -> Vec<Op> {
     s.split(',')
@@ -218,7 +218,13 @@ fn consumer_op(obj: &mut Obj3, op: &Op) {
         (Obj3::Plain(s), Op::ShareBatch) => {
             sched::note("call_pending", 0, 0);
             let b = s.pending();
-            *SHARED_BATCH.lock().unwrap() = Some(Box::new(b));
+            *SHARED_BATCH.lock().unwrap() = Some(Box::new(b.map(|sig| (sig as i64, 0))));
+            sched::note("ret_pending", 0, 0);
+        }
+        (Obj3::Raw(s), Op::ShareBatch) => {
+            sched::note("call_pending", 0, 0);
+            let b = s.pending();
+            *SHARED_BATCH.lock().unwrap() = Some(Box::new(b.map(|info| (info.si_signo as i64, raw_id(&info)))));
             sched::note("ret_pending", 0, 0);
         }
         _ => sched::note("bad_consumer_op", 0, 0),
@@ -253,8 +259,8 @@ fn handle_op(h: &Handle, op: &Op) {
         Op::ScanShared => {
             let b = SHARED_BATCH.lock().unwrap().take();
             if let Some(b) = b {
-                for sig in b {
-                    note_yield(sig as i64, 0);
+                for (sig, id) in b {
+                    note_yield(sig, id);
                 }
             }
         }
@@ -549,8 +555,8 @@ pub fn solo_signatures() -> String {
         let mut cfg = RunCfg::default();
         let h = b.handle.clone();
         cfg.on_stuck = Some(Arc::new(move || {
-            h.close();
-            true
+            // (a close() that panics releases nobody: the run ends as a deadlock)
+            catch_unwind(AssertUnwindSafe(|| h.close())).is_ok()
         }));
         let locs = b.locs.clone();
         let r = sched::run(b.bodies, &mut rp, &cfg);
@@ -637,8 +643,8 @@ pub fn main(args: &Args) -> i32 {
         cfg.on_stuck = Some(Arc::new(move || {
             // Everybody is blocked (typically the consumer in its blocking read with nothing to
             // report): release it by closing, from outside the scenario.
-            h.close();
-            true
+            // (a close() that panics releases nobody: the run ends as a deadlock)
+            catch_unwind(AssertUnwindSafe(|| h.close())).is_ok()
         }));
         let Built { bodies, locs, handle, slots_base, slot_size, read_fd } = b;
         let res = if let Some(codes) = &replay_codes {
